@@ -12,8 +12,8 @@ kf = [json.loads(l) for l in open(os.path.join(here, "KNOWN_FINDINGS.jsonl")) if
 
 
 def section(txt, pattern):
-    """Body of the '## N. <title matching pattern>' section of the notes."""
-    m = re.search(r'^## \d+\.?\s*[^\n]*%s[^\n]*\n(.*?)(?=^## \d|\Z)' % pattern, txt, re.S | re.M | re.I)
+    """Body of the '## [N.] <title matching pattern>' section of the notes."""
+    m = re.search(r'^## (?:\d+\w?\.?\s*)?[^\n]*(?:%s)[^\n]*\n(.*?)(?=^## |\Z)' % pattern, txt, re.S | re.M | re.I)
     return m.group(1).strip() if m else ""
 
 
@@ -41,7 +41,10 @@ for pid in sys.argv[1:]:
     if opened:
         parts.append("**Open findings (KNOWN_FINDINGS.jsonl; reproduced on /repo, no small safe repair).**\n\n" +
                      "\n".join("* %s" % re.sub(r'^open: ', '', k["what"]) for k in opened) + "\n")
-    mut = section(txt, "Mutation")
+    later = section(txt, "Robustness|Strengthening|False-alarm")
+    if later:
+        parts.append("**Later rounds (seeded defects that were missed, harmless refactorings that alarmed).**\n\n" + later + "\n")
+    mut = section(txt, "Mutation|Mutants")
     if mut:
         parts.append("**Hand mutations tried by the builder (quick tier).**\n\n" + mut + "\n")
     body = "\n".join(parts) + "\n"
